@@ -14,7 +14,8 @@ ASSUME = ["the input space is continuous: exhaustive over the configuration latt
           "latent shapes are those documented / produced by the published architectures at the pinned commit"]
 HORIZON = {"quick": 400, "thorough": 2400}
 
-STAGES = ["awgn", "laplacian", "phase", "fading-rayleigh", "fading-rician", "fading-lognormal", "nonlinear-direct", "nonlinear-cartesian", "nonlinear-polar", "nonlinear-noisy"]
+STAGES = ["awgn", "laplacian", "phase", "fading-rayleigh", "fading-rician", "fading-lognormal", "nonlinear-direct", "nonlinear-cartesian", "nonlinear-polar", "nonlinear-noisy",
+          "nonlinear-direct-compress", "nonlinear-cartesian-compress", "nonlinear-polar-compress", "nonlinear-polar-saturate"]
 CONSTRAINTS = ["total", "average", "papr-inside", "papr-outside", "papr-late", "per-antenna", "per-antenna-budget32", "per-antenna-budget64"]
 ARCHS = ["bourtsoulatze", "tung-q", "tung-q2", "kurka", "noma", "wz-small", "wz", "wz-conditional"]
 
@@ -25,9 +26,9 @@ def bounds(tier):
 
 def cases(tier, seed):
     for st in STAGES:
-        for par in (("power", "snr") if st not in ("phase", "nonlinear-direct", "nonlinear-cartesian", "nonlinear-polar") else ("none",)):
+        for par in (("power", "snr") if not (st == "phase" or (st.startswith("nonlinear-") and st != "nonlinear-noisy")) else ("none",)):
             for cplx in (False, True):
-                if not cplx and st in ("nonlinear-cartesian", "nonlinear-polar"):
+                if not cplx and st.startswith(("nonlinear-cartesian", "nonlinear-polar")):
                     continue
                 yield f"C19|grad|{st}|{par},{'complex128' if cplx else 'float64'}", {"kind": "grad-stage", "stage": st, "par": par, "cplx": cplx, "tier": tier}
     for c in CONSTRAINTS:
@@ -136,6 +137,13 @@ def make_stage(st, par, value):
         return K.FlatFadingChannel(ft, 2, **extra, **kw)
     if st == "nonlinear-noisy":
         return K.NonlinearChannel(cubic, add_noise=True, complex_mode="direct", **kw)
+    if st.endswith("-compress"):
+        # gain compression t - t^3/2: the characteristic crosses zero at |t| = sqrt(2) and is negative beyond (the inputs reach |t| ~ 2.1), smooth everywhere
+        comp = lambda t: t - 0.5 * t ** 3  # noqa: E731
+        mode = st.split("-")[1]
+        return K.NonlinearChannel((lambda t: t - 0.5 * t * t.abs() ** 2 if t.is_complex() else comp(t)) if mode == "direct" else comp, add_noise=False, complex_mode=mode)
+    if st.endswith("-saturate"):
+        return K.NonlinearChannel(lambda t: t / (1 + t ** 2) ** 0.5, add_noise=False, complex_mode=st.split("-")[1])
     return K.NonlinearChannel(lambda t: t + 0.1 * t * t.abs() ** 2 if t.is_complex() else cubic(t), add_noise=False, complex_mode=st.split("-")[1]) if st == "nonlinear-direct" else \
         K.NonlinearChannel(cubic, add_noise=False, complex_mode=st.split("-")[1])
 
